@@ -9,6 +9,7 @@ use std::panic::{catch_unwind, AssertUnwindSafe};
 
 mod arrays;
 mod bytesio;
+mod chunked;
 mod convert;
 mod create;
 mod spectrum;
@@ -25,6 +26,7 @@ fn run_case(line: &str, out: &mut String) {
         "npyw" | "npyr" | "textw" | "read" | "fmt" | "parse" => bytesio::run(&toks, out),
         "classify" | "sites" => create::run(&toks, out),
         "vcf2bcf" => convert::run(&toks, out),
+        "cnpy" | "cgeno" | "cwrite" => chunked::run(&toks, out),
         other => out.push_str(&format!("UNKNOWN-OP {other}")),
     }
 }
